@@ -31,6 +31,8 @@ def family(rp):
     f.add("field-through-fin-receiver", "class A\n    def v: Int := 1\ndef fin z := A()\nz.v := 2", "reject")
     f.add("field-through-mutable-receiver", "class A\n    def v: Int := 1\ndef z := A()\nz.v := 2", "accept")
     f.add("field-through-fin-self", "class A\n    def v: Int := 1\n    def m(fin self) => self.v := 3", "reject")
+    f.add("fin-self-compound-assignment", "class A\n    def v: Int := 1\n    def m(fin self) => self.v += 3", "reject")
+    f.add("fin-self-reassigned", "class A\n    def v: Int := 1\n    def m(fin self) => self := A()", "reject")
     f.add("field-through-mutable-self", "class A\n    def v: Int := 1\n    def m(self) => self.v := 3", "accept")
     f.add("nested-field-mutable-chain", "class B\n    def w: Int := 1\nclass A\n    def b: B := B()\ndef z := A()\nz.b.w := 2", "accept")
     f.add("self-outside-class", "self.v := 3", "reject")
@@ -367,6 +369,42 @@ def ob_fin_field(run, mir, rp, fam):
     run.samples.append({"obligation": ob.id, "queueing_paths": n, "reads_Field_mutable": reads_flag})
 
 
+def ob_parameter_flag(run, mir, rp, fam):
+    ob = run.ob("parameter-mutability-recorded", "E2", "constrain_args, one iteration of the loop over the parameters from an arbitrary loop state: every parameter - "
+                "`self` included - is recorded through id_from_var with the `mutable` flag of its own FunArg node (false for `fin`), its own identifier, "
+                "in the environment accumulated so far", ["constrain_args (loop body)"])
+    fn = e2.find1(mir, file="src/check/constrain/generate/definition.rs", name="constrain_args")
+    ex = Exec(mir, max_paths=20000, inline=[ckern.ENV_SETTERS])
+    st = State()
+    env, _ev = ckern.sym_env(ex, st)
+    ctx, constr = ckern.refs(ex, st, "ctx", "constr")
+    ends = e2.run_kernel(run, ex, fn, [opq("args", "&[AST]"), env, ctx, constr], st)
+    _rel, lay = ckern.node_enum()
+    astf = e2.rust_struct(ckern.AST_RS, "AST")
+    claims, n = [], 0
+    for p in ends:
+        ids = calls(p, "id_from_var")
+        nx = calls(p, "Iterator::next")
+        if not ids or not nx:
+            continue
+        n += 1
+        s = p.state
+        arg = ex.project(s, ex.project(s, nx[-1]["ret"], ("v", "Some")), ("f", 0), "&AST")
+        fa = ex.project(s, ex.project(s, arg, ("f", astf.index("node")), "Node"), ("v", "FunArg"))
+        mut = ex.project(s, fa, ("f", lay["FunArg"].index("mutable")), "bool")
+        var = ex.project(s, fa, ("f", lay["FunArg"].index("var")), "Box<AST>")
+        a = ids[-1]
+        flag = a["args"][3]
+        cl = [z3.BoolVal(len(ids) == 1)]
+        cl.append(flag == mut if (z3.is_bool(flag) and z3.is_bool(mut)) else z3.BoolVal(False))
+        cl.append(a["argvals"][0] == ex.to_val(s, var))
+        claims.append(z3.Implies(conj(p.cond), conj(cl)))
+    if n < 2:
+        raise Unsupported(f"{n} paths record a parameter")
+    e2.prove(run, ob, ex, [], conj(claims), {}, fam.as_replay("parameter-flag:", only=["field-through-fin-self", "field-through-mutable-self", "reassign-fin-parameter", "reassign-mutable-parameter", "fin-self"]))
+    run.samples.append({"obligation": ob.id, "recording_paths": n})
+
+
 def run(run):
     mir = e2.load_mir(run)
     rp = common.Replay()
@@ -376,7 +414,7 @@ def run(run):
                "outside: shadowing offsets (var_mapping), tuple destructuring through match_name, fin self / fin fields in the unifier")
     run.trusted += ["rustc nightly MIR dump", "mirsym MIR semantics", "z3"]
     run.bounds = {"entries_per_name": 2, "paths": "all paths, loops cut at headers"}
-    for f in (ob_closure, ob_outer, ob_reassign_order, ob_reassignable, ob_insert_flag, ob_fin_field):
+    for f in (ob_closure, ob_outer, ob_reassign_order, ob_reassignable, ob_insert_flag, ob_parameter_flag, ob_fin_field):
         try:
             f(run, mir, rp, fam)
         except Unsupported as e:
